@@ -4,7 +4,6 @@ import (
 	"bytes"
 	"fmt"
 	"reflect"
-	"regexp"
 	"strings"
 
 	"github.com/valinurovam/garagemq/amqp"
@@ -26,7 +25,7 @@ type Binding struct {
 	Exchange   string
 	RoutingKey string
 	Arguments  *amqp.Table
-	regexp     *regexp.Regexp
+	pattern    []string
 	topic      bool
 	MatchType  MatchType
 }
@@ -43,7 +42,7 @@ func NewBinding(queue string, exchange string, routingKey string, arguments *amq
 
 	if topic {
 		var err error
-		if binding.regexp, err = buildRegexp(routingKey); err != nil {
+		if binding.pattern, err = parseTopicPattern(routingKey); err != nil {
 			return nil, fmt.Errorf("bad topic routing key %s -- %s",
 				routingKey,
 				err.Error())
@@ -84,48 +83,46 @@ func NewBinding(queue string, exchange string, routingKey string, arguments *amq
 	return binding, nil
 }
 
-// @todo may be better will be trie or dfa than regexp
-// @see http://www.rabbitmq.com/blog/2010/09/14/very-fast-and-scalable-topic-routing-part-1/
-// @see http://www.rabbitmq.com/blog/2011/03/28/very-fast-and-scalable-topic-routing-part-2/
-//
-// buildRegexp generate regexp from topic-match string
-func buildRegexp(routingKey string) (*regexp.Regexp, error) {
-	routingKey = strings.TrimSpace(routingKey)
-	routingParts := strings.Split(routingKey, ".")
+// topicWords splits a topic routing key into its words (delimited by dots).
+// An empty routing key consists of zero words.
+func topicWords(routingKey string) []string {
+	if routingKey == "" {
+		return nil
+	}
+	return strings.Split(routingKey, ".")
+}
 
-	for idx, routingPart := range routingParts {
-		if routingPart == "*" {
-			routingParts[idx] = "*"
-		} else if routingPart == "#" {
-			routingParts[idx] = "#"
-		} else {
-			routingParts[idx] = regexp.QuoteMeta(routingPart)
+// parseTopicPattern splits topic-match string into words and checks that
+// wildcards '*' and '#' are used as whole words only
+func parseTopicPattern(routingKey string) ([]string, error) {
+	words := topicWords(routingKey)
+	for _, word := range words {
+		if len(word) > 1 && strings.ContainsAny(word, "*#") {
+			return nil, fmt.Errorf("wildcard inside of word '%s'", word)
 		}
 	}
+	return words, nil
+}
 
-	routingKey = strings.Join(routingParts, "\\.")
-	routingKey = strings.Replace(routingKey, "*", `([^\.]+)`, -1)
-
-	for strings.HasPrefix(routingKey, "#\\.") {
-		routingKey = strings.TrimPrefix(routingKey, "#\\.")
-		if strings.HasPrefix(routingKey, "#\\.") {
+// matchTopicWords check is routing key words match topic-pattern words:
+// '*' matches exactly one word, '#' matches zero or more words
+func matchTopicWords(pattern []string, words []string) bool {
+	// row[j] tells whether the already handled tail of pattern matches words[j:]
+	row := make([]bool, len(words)+1)
+	row[len(words)] = true
+	for i := len(pattern) - 1; i >= 0; i-- {
+		if pattern[i] == "#" {
+			for j := len(words) - 1; j >= 0; j-- {
+				row[j] = row[j] || row[j+1]
+			}
 			continue
 		}
-		routingKey = `(.*\.?)+` + routingKey
-	}
-
-	for strings.HasSuffix(routingKey, "\\.#") {
-		routingKey = strings.TrimSuffix(routingKey, "\\.#")
-		if strings.HasSuffix(routingKey, "\\.#") {
-			continue
+		for j := 0; j < len(words); j++ {
+			row[j] = row[j+1] && (pattern[i] == "*" || pattern[i] == words[j])
 		}
-		routingKey = routingKey + `(.*\.?)+`
+		row[len(words)] = false
 	}
-	routingKey = strings.Replace(routingKey, "\\.#\\.", `(.*\.?)+`, -1)
-	routingKey = strings.Replace(routingKey, "#", `(.*\.?)+`, -1)
-	pattern := "^" + routingKey + "$"
-
-	return regexp.Compile(pattern)
+	return row[0]
 }
 
 // MatchDirect check is message can be routed from direct-exchange to queue
@@ -143,7 +140,7 @@ func (b *Binding) MatchFanout(exchange string) bool {
 // MatchTopic check is message can be routed from topic-exchange to queue
 // with compare exchange and match topic-pattern with routing key
 func (b *Binding) MatchTopic(exchange string, routingKey string) bool {
-	return b.Exchange == exchange && b.regexp.MatchString(routingKey)
+	return b.Exchange == exchange && matchTopicWords(b.pattern, topicWords(routingKey))
 }
 
 // MatchHeader checks whether the message can be routed on `b` for a
@@ -303,7 +300,7 @@ func (b *Binding) Unmarshal(data []byte, protoVersion string) (err error) {
 	b.topic = topic == 1
 
 	if b.topic {
-		if b.regexp, err = buildRegexp(b.RoutingKey); err != nil {
+		if b.pattern, err = parseTopicPattern(b.RoutingKey); err != nil {
 			return err
 		}
 	}
